@@ -16,8 +16,8 @@ from aiocoap.util import hostportjoin, hostportsplit
 PROP = "C16"
 LEVEL = "exploration"
 EXHAUSTIVE = True
-RULE = ("E1: (a) 9 schemes x 18 hosts x 9 ports x {plain, userinfo, fragment} with two paths; (b) path lists of length <= 3 and query "
-        "lists of length <= 2 over a 17-segment alphabet (reserved characters, empty, dots, non-ASCII, literal percent text), given "
+RULE = ("E1: (a) 9 schemes x 22 hosts x 9 ports x {plain, userinfo, fragment} with two paths; (b) path lists of length <= 3 and query "
+        "lists of length <= 2 over a 23-segment alphabet (reserved characters, empty, dots, control characters below U+0010 followed by a hex digit, DEL, non-ASCII up to astral planes, literal percent text), given "
         "percent-encoded in URI text and raw in options, for three host kinds; (c) verbatim bad escapes; (d) every string of length <= 3 "
         "over {c o a p : / ? # @ [ ] % .} alone and behind 'coap:', 'coap://', 'coap://h'; (e) host/port split-join pairs. "
         "distinct = distinct (family, outcome class, shape)")
@@ -32,12 +32,14 @@ SCHEMES = ["coap", "coaps", "coap+tcp", "coaps+tcp", "coap+ws", "coaps+ws", "COA
 HOSTS = [
     ("example.com", "name", "example.com"), ("EXAMPLE.com", "name", "example.com"), ("ex%41mple.com", "name", "example.com"),
     ("ö.example", "name", "ö.example"), ("%C3%B6.example", "name", "ö.example"), ("%FF.example", "bad", None),
-    ("127.0.0.1", "ip", None), ("1.2.3.", "name", "1.2.3."), ("1..2.3", "name", "1..2.3"), ("256.1.1.1", "name", "256.1.1.1"),
+    ("127.0.0.1", "ip", None), ("192.168.1.255", "ip", None), ("255.255.255.255", "ip", None), ("10.255.0.1", "ip", None), ("0.0.0.0", "ip", None),
+    ("1.2.3.", "name", "1.2.3."), ("1..2.3", "name", "1..2.3"), ("256.1.1.1", "name", "256.1.1.1"),
     ("[::1]", "ip", None), ("[2001:db8::1]", "ip", None), ("[::ffff:1.2.3.4]", "ip", None), ("[fe80::1%25lo]", "dontcare", None),
     ("[fe80::1%lo]", "dontcare", None), ("[v1.fe]", "dontcare", None), ("[::1", "bad", None), ("", "bad", None),
 ]
 PORTS = [(None, "ok"), ("", "ok"), ("5683", "ok"), ("5684", "ok"), ("61616", "ok"), ("0", "ok"), ("65535", "ok"), ("65536", "bad"), ("abc", "bad")]
-SEGS = ["a", "", ".", "..", "a/b", "a?b", "a&b", "a=b", "a%b", "a#b", "a b", "ö", "%41", ":@", "+", "~", "A"]
+SEGS = ["a", "", ".", "..", "a/b", "a?b", "a&b", "a=b", "a%b", "a#b", "a b", "ö", "%41", ":@", "+", "~", "A",
+        "\x00A", "\n", "x\x0f", "\x7f", "\U0001F600", "\u0378\ufffd"]
 UNRESERVED = set("abcdefghijklmnopqrstuvwxyzABCDEFGHIJKLMNOPQRSTUVWXYZ0123456789-._~")
 
 
